@@ -139,6 +139,13 @@ fn history_of(k: usize, nonce_only: bool) {
 fn c08_history_1() {
     history(1)
 }
+// HARNESS props=C08,C03,C09 tier=quick profile=gw_hrot shape="constructor with one set, then 1 rotation (bypass or not; arbitrary clock, delay, retention: full u64), then a proof by either installed set; the sets differ only in their nonce byte (one signer, weight 1, threshold 1)"
+#[kani::proof]
+#[kani::stub(crate::auth::validate_signatures, accept_signatures)]
+#[kani::stub(crate::auth::message_hash_to_sign, no_digest)]
+fn c08_history_1_nonce_sets() {
+    history_of(1, true)
+}
 // PROBE (not registered: the two-rotation history needs more than the 14 GB per-harness cap; 23 GB observed) props=C08,C03,C09 tier=thorough profile=gw_hrot2 shape="constructor with one set, then 2 rotations each authorised by ANY earlier installed set (bypass or not), then a proof by any of the three sets; the sets differ only in their nonce byte (one signer, weight 1, threshold 1)"
 #[kani::proof]
 #[kani::stub(crate::auth::validate_signatures, accept_signatures)]
